@@ -172,6 +172,8 @@ def run(ctx):
     from props import fringe
     fringe.case_twin_tree(ctx, 'glob')
     fringe.newline_exclusions(ctx)
+    from props import glue
+    glue.list_is_union(ctx)
     return ctx.finish(RULE)
 
 
